@@ -51,10 +51,10 @@ RULE = (
     "where the network has at least one node (layout) or one edge with >= 2 nodes (draw)"
 )
 ASSUMPTIONS = [
-    "labels (kind fixed by idx, 1/9 each): strings, ints 0..k, gapped/negative ints, integral floats 0.0..k, non-integral floats, negative ints only, "
-    "numpy int64/int32, ints mixed with larger integral floats, very large ints (> 2**63); <= 10 nodes, <= 10 edges, edge sizes 0..5",
+    "labels (kind fixed by idx, 1/10 each): strings, ints 0..k, gapped/negative ints, integral floats 0.0..k, non-integral floats, negative ints only, "
+    "numpy int64/int32, ints mixed with larger integral floats, very large ints (> 2**63), strings mixed with ints (hypergraphs and directed hypergraphs built edge by edge only); <= 10 nodes, <= 10 edges, edge sizes 0..5",
     "excluded labels: bool (True == 1 and False == 0 are the SAME dict key as the ints), two labels of one network that compare equal across types (0 and 0.0, "
-    "np.int64(1) and 1: one node, not two), NaN (not equal to itself), None, tuples / frozensets and str mixed with non-str (add_edges_from cannot tell such "
+    "np.int64(1) and 1: one node, not two), NaN (not equal to itself), None, tuples / frozensets, and str mixed with non-str in a SimplicialComplex (add_edges_from cannot tell such "
     "labels from edge formats, DESIGN 1.4; convert_labels_to_integers and draw_simplices rebuild networks through it)",
     "explicit positions come in 8 families fixed by idx: general position (2n pairwise distinct coordinates), integer grid, all points on one line (horizontal / vertical / "
     "diagonal; centroids fall on members), regular polygon around a centre (optionally one key on the centre), mirror pairs through a centre, coincident positions of two "
@@ -146,7 +146,7 @@ def floors(tier):
         f[f"style:{s}"] = int(2.5 * nd)
     for m in ("None", "<max", ">=max"):
         f[f"max_order:{m}"] = int(0.8 * nd)
-    for k in LABEL_KINDS:  # each kind gets 1/9 of the cases, fixed by idx
+    for k in LABEL_KINDS:  # each kind gets 1/10 of the cases, fixed by idx
         f[f"draw-labels:{k}"] = int(0.08 * nd)
         f[f"layout-labels:{k}"] = int(0.08 * nl)
         f[f"seq-labels:{k}"] = ns // 14
